@@ -58,12 +58,26 @@ func mkGraph(r *lib.RNG, twoRefs, twoDeps, blockField, twoSrc bool, rstart, dsta
 		}
 		add(d2, dstart, true)
 	}
-	add(ts.IGSpec{Name: "r-one", Shape: "created", Table: "r1", Hdr: r.Bool()}, rstart, false)
+	share := twoRefs && r.Intn(3) == 0 // both references write one table (and the referenced column)
+	hdr := r.Bool()
+	t2 := "r2"
+	if share {
+		t2 = "r1"
+	}
+	add(ts.IGSpec{Name: "r-one", Shape: "created", Table: "r1", Hdr: hdr}, rstart, false)
 	if twoRefs {
-		add(ts.IGSpec{Name: "r-two", Shape: "created", Table: "r2"}, rstart, false)
+		add(ts.IGSpec{Name: "r-two", Shape: "created", Table: t2, Hdr: share && hdr}, rstart, false)
+		if share && rstart <= 1 && r.Bool() {
+			// the second reference on the block field log_addr instead of input "to"
+			g.igs[0].Ref2, g.igs[0].RefBD = "", "r-two"
+			g.token = true
+		}
 	}
 	return g
 }
+
+// run0: configuration anomalies (a wrong Dependencies set is never the known lookup limit)
+func run0(r *ts.Run) []string { return r.W.ConfigAnomalies }
 
 func run(cfg lib.Cfg) error {
 	out := lib.NewOut("C05", cfg.Out, ts.Header(5), "run", 3)
@@ -72,17 +86,19 @@ func run(cfg lib.Cfg) error {
 	judge := func(sc *ts.Scenario, kind string, quiescent bool, neverStarted []int) {
 		reorg := reorgMode
 		ts.Judge(out, sc, kind, func(r *ts.Run) []string {
-			msgs := append(r.DepOracle(), r.InvOracle()...)
+			dep := r.DepOracle()
+			msgs := append(append([]string{}, dep...), r.InvOracle()...)
 			switch {
 			case !reorg:
 				msgs = append(msgs, r.GrowthOracle(quiescent)...)
 			case quiescent:
 				msgs = append(msgs, r.ReorgOracle(r.Forks)...)
 			}
-			if wins := r.DepWindows(); len(msgs) > 0 && len(wins) > 0 {
-				// known limit of the mechanism (known_findings/C05.json): dependency read and
-				// reference lookups are not atomic with respect to the reference's unwind
-				msgs = append([]string{"a referenced integration unwound between the dependency read and the lookups of a step (" + wins[0] + ")"}, msgs...)
+			if wins := r.DepWindows(); len(msgs) > 0 && len(dep) == 0 && len(run0(r)) == 0 && len(wins) > 0 {
+				// known limit of the mechanism (known_findings/C05.json): the dependency position
+				// compares block NUMBERS; a reference that has not unwound yet (or unwinds between
+				// the dependency read and the lookups) offers rows of orphaned blocks
+				msgs = append([]string{"reference lookups ran against a referenced table that did not describe the chain being indexed (" + wins[0] + ")"}, msgs...)
 			}
 			return msgs
 		}, func(r *ts.Run) bool {
@@ -136,6 +152,8 @@ func run(cfg lib.Cfg) error {
 	// repaired by fixes/C05-dependency-all-started.diff)
 	{
 		g := mkGraph(lib.NewRNG(3), true, false, false, false, 1, 1)
+		g.igs[0].Ref2, g.igs[0].RefBD, g.token = "r-two", "", false // two inputs, separate tables
+		g.igs[2].Table, g.igs[2].Hdr = "r2", false
 		sc := mk("corpus-unstarted-reference", g, 8, 2, 1, 51)
 		for i := 0; i < 3; i++ {
 			sc.Acts = append(sc.Acts, ts.Act{Do: "step", Tid: g.refs[0]})
@@ -155,6 +173,33 @@ func run(cfg lib.Cfg) error {
 			sc.Acts = append(sc.Acts, ts.Act{Do: "step", Tid: 1}, ts.Act{Do: "step", Tid: 2}) // a-dep@alt, a-dep@main
 		}
 		judge(sc, "corpus-two-sources", false, nil)
+		// two DIFFERENT referenced integrations that write the SAME table and column; the
+		// second one never starts: the dependent must wait for both.  References on two
+		// inputs, and on an input plus the block field log_addr.
+		for v, bd := range []bool{false, true} {
+			g := graph{token: bd, nTasks: 3, deps: []int{1}, refs: []int{2, 3}}
+			d := ts.IGSpec{Name: "a-dep", Shape: "dep", Table: "d1", Ref: "r-one", RefLo: 1, Sources: []ts.SrcRef{{Name: "main", Start: 1}}}
+			if bd {
+				d.RefBD = "r-two"
+			} else {
+				d.Ref2 = "r-two"
+			}
+			g.igs = []ts.IGSpec{d,
+				{Name: "r-one", Shape: "created", Table: "refs", Sources: []ts.SrcRef{{Name: "main", Start: 1}}},
+				{Name: "r-two", Shape: "created", Table: "refs", Sources: []ts.SrcRef{{Name: "main", Start: 1}}}}
+			sc := mk(fmt.Sprintf("corpus-references-share-table-%d", v), g, 8, 2, 1, uint64(57+v))
+			for i := 0; i < 3; i++ {
+				sc.Acts = append(sc.Acts, ts.Act{Do: "step", Tid: 2})
+			}
+			for i := 0; i < 3; i++ {
+				sc.Acts = append(sc.Acts, ts.Act{Do: "step", Tid: 1})
+			}
+			// then the second reference starts and everybody reaches the head
+			for i := 0; i < 12; i++ {
+				sc.Acts = append(sc.Acts, ts.Act{Do: "step", Tid: 3}, ts.Act{Do: "step", Tid: 2}, ts.Act{Do: "step", Tid: 1})
+			}
+			judge(sc, "corpus-references-share-table", true, nil)
+		}
 	}
 	// reorg histories with statement-level interleaving: a dependent detects a reorg in its
 	// step and unwinds; the referenced integration commits ITS unwind before the dependent's
@@ -191,7 +236,7 @@ func run(cfg lib.Cfg) error {
 	}
 	nre := 10
 	if cfg.Thorough() {
-		nre = 500
+		nre = 300
 	}
 	for i := 0; i < nre; i++ {
 		twoRefs := r.Intn(3) == 0
